@@ -55,6 +55,9 @@ Definition mkmres (chain : str) (number : Z) (icode : option str) (letter : str)
   {| m_chain := chain; m_number := number; m_icode := icode; m_letter := letter; m_nucleotide := nuc; m_connected_prev := conn |}.
 Definition mkipair (i j : option nat) (lw : str) (sa : option str) : ipair := {| p_i := i; p_j := j; p_lw := lw; p_sa := sa |}.
 Definition ventry3 (e : nat * str * nat) : val := match e with (i, c, p) => VL [vnat i; vstr c; vnat p] end.
+(* the per-strand text of Mapping2D3D.dot_bracket for a given whole-structure dot-bracket *)
+Definition run_strand_texts (gaps : bool) (rs : list mres) (db : str) : val :=
+  vlist (fun x => VL [vstr (fst (fst x)); vstr (snd (fst x)); vstr (snd x)]) (strand_texts gaps rs db).
 Definition run_mapping (gaps : bool) (rs : list mres) (ps : list ipair) : val :=
   VL [match mapping_bpseq gaps rs ps with Ok b => vlist ventry3 b | Raise e => VE (exn_name e) end;
       vlist (vpair vstr vstr) (strands gaps rs);
